@@ -5,8 +5,10 @@ import (
 	"encoding/json"
 	"errors"
 	"fmt"
+	"html/template"
 	"sort"
 	"strings"
+	"sync"
 	"testing"
 
 	"verif/internal/match"
@@ -37,7 +39,12 @@ var (
 	// a helper whose error WRAPS an unknown-identifier error (what a nested render that hits an unset name returns):
 	// it is a failing helper, not "an unknown identifier used as a condition or operand", so it is never tolerated
 	wrapunk = model.Call{Fn: "wrapunk"}
-	faults  = []model.Expr{boom, boom, boom, divZero, mixed, oob, unknown, wrapunk, wrapunk}
+	// helpers with a HISTORY: flakyK() returns 1 until its K-th invocation of the render, which fails (and every later
+	// one). Whether the render fails depends on how often the call site is evaluated, not on where it stands - what a
+	// memo per call site, per name or per template would get wrong.
+	flaky2 = model.Call{Fn: "flaky2"}
+	flaky3 = model.Call{Fn: "flaky3"}
+	faults = []model.Expr{boom, boom, boom, divZero, mixed, oob, unknown, wrapunk, wrapunk, flaky2, flaky2, flaky3}
 )
 
 func run(r *vk.Run, prog []model.Node, partials map[string][]model.Node, class string) *vk.Fail {
@@ -61,7 +68,19 @@ func run(r *vk.Run, prog []model.Node, partials map[string][]model.Node, class s
 	defer r.Watch("fault", c)()
 	mcount, pcount := 0, 0
 	mk := func(cnt *int) map[string]model.Helper {
+		flaky := func(k int) model.Helper {
+			calls := 0
+			return func(a []interface{}) (interface{}, error) {
+				calls++
+				if calls >= k {
+					*cnt++
+					return nil, sentinel
+				}
+				return 1, nil
+			}
+		}
 		return progs.Helpers(map[string]model.Helper{
+			"flaky2": flaky(2), "flaky3": flaky(3),
 			"boom": func(a []interface{}) (interface{}, error) { *cnt++; return nil, sentinel },
 			"wrapunk": func(a []interface{}) (interface{}, error) {
 				*cnt++
@@ -86,7 +105,7 @@ func run(r *vk.Run, prog []model.Node, partials map[string][]model.Node, class s
 	if want.Err != "" {
 		nt = full
 		class += "/fails"
-	} else if strings.Contains(full, "boom()") || strings.Contains(full, "wrapunk()") || strings.Contains(full, "nosuchname") || strings.Contains(full, "1 / 0") {
+	} else if strings.Contains(full, "boom()") || strings.Contains(full, "wrapunk()") || strings.Contains(full, "flaky") || strings.Contains(full, "nosuchname") || strings.Contains(full, "1 / 0") {
 		nt = full
 		class += "/fault-not-reached"
 	}
@@ -220,6 +239,48 @@ func positions(f model.Expr) map[string][]model.Node {
 	out["partial body"] = []model.Node{T("a"), model.EmitPartial{Name: "badpart", Data: []model.KV{}}, T("b")}
 	out["partial body nested"] = []model.Node{T("a"), model.EmitPartial{Name: "outerpart", Data: []model.KV{}}, T("b")}
 	out["after a lot of output"] = []model.Node{T(strings.Repeat("lots of output ", 50)), emit(lit("x")), emit(f)}
+	// else-if chains in which the failing condition is followed by further clauses
+	out["else-if condition followed by else"] = []model.Node{T("a"), model.EmitIf{If: &model.If{Cond: lit(false), Then: []model.Node{T("T")}, ElseIfs: []model.ElseIf{{Cond: f, Then: []model.Node{T("E")}}}, HasElse: true, Else: []model.Node{T("F")}}}, T("b")}
+	out["else-if condition followed by else-if"] = []model.Node{T("a"), model.EmitIf{If: &model.If{Cond: lit(false), Then: []model.Node{T("T")}, ElseIfs: []model.ElseIf{{Cond: f, Then: []model.Node{T("E")}}, {Cond: lit(true), Then: []model.Node{T("G")}}}}}, T("b")}
+	out["second else-if condition, then else"] = []model.Node{T("a"), model.EmitIf{If: &model.If{Cond: lit(false), Then: []model.Node{T("T")}, ElseIfs: []model.ElseIf{{Cond: model.Var{Name: "unset"}, Then: []model.Node{T("E")}}, {Cond: f, Then: []model.Node{T("G")}}}, HasElse: true, Else: []model.Node{T("F")}}}, T("b")}
+	out["silent else-if condition followed by else"] = []model.Node{T("a"), model.Code{S: model.IfS{If: &model.If{Cond: lit(false), Then: []model.Node{T("T")}, ElseIfs: []model.ElseIf{{Cond: f, Then: []model.Node{T("E")}}}, HasElse: true, Else: []model.Node{T("F")}}}}, T("b")}
+	// ONE call site evaluated SEVERAL times in one render (loops, calls, replays of stored blocks): a fault with a history
+	// (flaky2, flaky3) fails on a later evaluation only
+	call := func(args ...model.Expr) model.Expr { return model.Call{Fn: "uf", Args: args} }
+	ufDef := func(params []string, body ...model.Node) model.Node {
+		return model.Code{S: model.LetS{Name: "uf", X: model.FnLit{Params: params, Body: body}}}
+	}
+	loop3 := func(body ...model.Node) model.Node {
+		return model.EmitFor{For: &model.For{Val: "v", Iter: model.Var{Name: "arr"}, Body: body}}
+	}
+	out["user function called three times"] = []model.Node{ufDef(nil, model.Code{S: model.ReturnS{X: f}}), T("a"), emit(call()), T("m"), emit(call()), emit(call()), T("b")}
+	out["user function called three times as a condition"] = []model.Node{ufDef(nil, model.Code{S: model.ReturnS{X: f}}), T("a"), loop3(model.EmitIf{If: &model.If{Cond: call(), Then: []model.Node{T("T")}, HasElse: true, Else: []model.Node{T("F")}}}), T("b")}
+	out["user function body rendering, called three times"] = []model.Node{ufDef(nil, T("x"), emit(f)), T("a"), emit(call()), emit(call()), emit(call()), T("b")}
+	out["recursive user function, innermost call"] = []model.Node{ufDef([]string{"n"}, model.Code{S: model.IfS{If: &model.If{Cond: model.Bin{Op: "==", L: model.Var{Name: "n"}, R: lit(0)}, Then: []model.Node{model.Code{S: model.ReturnS{X: f}}}}}},
+		model.Code{S: model.ReturnS{X: call(model.Bin{Op: "-", L: model.Var{Name: "n"}, R: lit(1)})}}), T("a"), emit(call(lit(3))), T("b")}
+	out["recursive user function, every level"] = []model.Node{ufDef([]string{"n"}, model.Code{S: model.LetS{Name: "z", X: f}}, model.Code{S: model.IfS{If: &model.If{Cond: model.Bin{Op: "==", L: model.Var{Name: "n"}, R: lit(0)}, Then: []model.Node{model.Code{S: model.ReturnS{X: lit("end")}}}}}},
+		model.Code{S: model.ReturnS{X: call(model.Bin{Op: "-", L: model.Var{Name: "n"}, R: lit(1)})}}), T("a"), emit(call(lit(3))), T("b")}
+	out["partial rendered three times"] = []model.Node{T("a"), model.EmitPartial{Name: "badpart", Data: []model.KV{}}, T("m"), model.EmitPartial{Name: "badpart", Data: []model.KV{}}, model.EmitPartial{Name: "badpart", Data: []model.KV{}}, T("b")}
+	out["partial rendered in a loop"] = []model.Node{T("a"), loop3(model.EmitPartial{Name: "badpart", Data: []model.KV{}}), T("b")}
+	out["nested partial rendered in a loop"] = []model.Node{T("a"), loop3(model.EmitPartial{Name: "outerpart", Data: []model.KV{}}), T("b")}
+	out["contentOf rendered three times"] = []model.Node{T("a"), model.ContentFor{Name: "cf", Body: []model.Node{T("x"), emit(f)}}, model.EmitContentOf{Name: "cf", Data: []model.KV{}}, T("m"), model.EmitContentOf{Name: "cf", Data: []model.KV{}}, model.EmitContentOf{Name: "cf", Data: []model.KV{}}, T("b")}
+	out["block helper in a loop"] = []model.Node{T("a"), loop3(model.EmitBlock{Helper: "blk", Body: []model.Node{T("x"), emit(f)}}), T("b")}
+	out["nested loops body"] = []model.Node{T("a"), model.EmitFor{For: &model.For{Val: "v", Iter: model.Var{Name: "two"}, Body: []model.Node{model.EmitFor{For: &model.For{Val: "w", Iter: model.Var{Name: "two"}, Body: []model.Node{T("x"), emit(f)}}}}}}, T("b")}
+	out["loop in a function called twice"] = []model.Node{ufDef(nil, model.EmitFor{For: &model.For{Val: "v", Iter: model.Var{Name: "two"}, Body: []model.Node{T("x"), model.Code{S: model.LetS{Name: "z", X: f}}}}}), T("a"), emit(call()), emit(call()), T("b")}
+	out["if condition in a loop"] = []model.Node{T("a"), loop3(model.EmitIf{If: &model.If{Cond: f, Then: []model.Node{T("T")}, HasElse: true, Else: []model.Node{T("F")}}}), T("b")}
+	out["else-if condition in a loop, followed by else"] = []model.Node{T("a"), loop3(model.EmitIf{If: &model.If{Cond: lit(false), Then: []model.Node{T("T")}, ElseIfs: []model.ElseIf{{Cond: f, Then: []model.Node{T("E")}}}, HasElse: true, Else: []model.Node{T("F")}}}), T("b")}
+	out["operand of ! in a loop"] = []model.Node{T("a"), loop3(emit(model.Not{X: f})), T("b")}
+	for _, op := range []string{"==", "!=", "&&", "||"} {
+		out["left of "+op+" in a loop"] = []model.Node{T("a"), loop3(emit(model.Bin{Op: op, L: f, R: model.Var{Name: "unset"}})), T("b")}
+		out["right of "+op+" in a loop, left unknown"] = []model.Node{T("a"), loop3(emit(model.Bin{Op: op, L: model.Var{Name: "unset"}, R: f})), T("b")}
+	}
+	out["array element in a loop"] = []model.Node{T("a"), loop3(emit(model.Arr{Els: []model.Expr{lit(1), f}})), T("b")}
+	out["hash value in a loop"] = []model.Node{T("a"), loop3(emit(model.Idx{X: model.Hash{KVs: []model.KV{{K: "p", V: f}}}, I: lit("p")})), T("b")}
+	out["argument of Go helper in a loop"] = []model.Node{T("a"), loop3(emit(model.Call{Fn: "id", Args: []model.Expr{f}})), T("b")}
+	out["let value in a silent loop"] = []model.Node{T("a"), model.Code{S: model.ForS{For: &model.For{Val: "v", Iter: model.Var{Name: "arr"}, Body: []model.Node{model.Code{S: model.LetS{Name: "z", X: f}}}}}}, T("b")}
+	out["map loop body, every entry"] = []model.Node{T("a"), model.Code{S: model.ForS{For: &model.For{Key: "k", Val: "v", Iter: model.Var{Name: "mp"}, Body: []model.Node{model.Code{S: model.LetS{Name: "z", X: f}}}}}}, T("b")}
+	out["custom iterator loop body, every element"] = []model.Node{T("a"), model.Code{S: model.ForS{For: &model.For{Val: "v", Iter: model.Var{Name: "it"}, Body: []model.Node{model.Code{S: model.LetS{Name: "z", X: f}}}}}}, T("b")}
+	out["range loop body, every element"] = []model.Node{T("a"), model.EmitFor{For: &model.For{Val: "v", Iter: rng, Body: []model.Node{T("x"), emit(model.Bin{Op: "+", L: f, R: lit(1)})}}}, T("b")}
 	return out
 }
 
@@ -232,7 +293,7 @@ func partialsFor(f model.Expr) map[string][]model.Node {
 	}
 }
 
-const rule = "(E) each of 6 faults - a helper returning a sentinel error, 1/0, 1 + \"a\", arr[99], an unknown identifier, a helper whose error WRAPS an unknown-identifier error (as a nested render does) - planted at each of 68 syntactic positions (either operand of all 13 operators, short-circuited operands, !, emitted, silent tag, let / assignment value, if / else-if condition (reached and not reached), taken / untaken / else branch body, silent if body, loop iterable / body / second iteration / empty loop / silent loop, loops over the built-in range iterator and a custom Iterator (body, last iteration, silent body inside a function), a map loop in which one / no entry reaches the fault (repeated, any visiting order), array element, hash value, index, argument of Go helper / user function, user function body (called / not called), block of a block helper, contentFor block rendered / never rendered by contentOf, contentOf / partial data value, partial body, nested partial body, after 750 bytes of output). (R) random well-formed programs over all constructs in which about one leaf in seven is a fault. Oracle: the statement's own (failing helper invoked => non-nil error, errors.Is(err, original), empty output) plus, in both directions, the reference interpreter: the render fails exactly when the reference says a fault is evaluated outside the tolerated positions (unknown identifier as condition or operand of ! == != && ||), and otherwise renders the reference output. Non-trivial = the program contains a fault (reached or not); distinct by template + partial texts."
+const rule = "(E1, mini-AST + reference interpreter) each of 8 faults - a helper returning a sentinel error, 1/0, 1 + \"a\", arr[99], an unknown identifier, a helper whose error WRAPS an unknown-identifier error (as a nested render does), helpers with a HISTORY that return 1 until their 2nd / 3rd invocation of the render and fail from then on - planted at each of 102 syntactic positions: either operand of all 13 operators, short-circuited operands, !, emitted, silent tag, let / assignment value, if / else-if condition (reached, not reached, followed by else / by a further else-if, second else-if after an unknown one, silent), taken / untaken / else branch body, silent if body, loop iterable / body / second iteration / empty loop / silent loop, loops over the built-in range iterator and a custom Iterator (body, last iteration, every element, silent body inside a function), a map loop in which one / no / every entry reaches the fault (repeated, any visiting order), array element, hash value, index, argument of Go helper / user function, user function body (called / not called), block of a block helper, contentFor block rendered / never rendered by contentOf, contentOf / partial data value, partial body, nested partial body, after 750 bytes of output; and ONE call site evaluated SEVERAL times in one render: a user function called three times (emitted, as a condition, rendering), recursion (innermost level / every level), a partial / nested partial three times and in a loop, a stored block rendered three times, a helper block in a loop, nested loops, a loop in a function called twice, if / else-if conditions and operands of ! == != && || (either side, other side unknown) in a loop, array element / hash value / helper argument / let value in a loop. (R1) random well-formed programs over all constructs in which about one leaf in seven is one of these faults; (R2) the same wrapped so that the whole program is evaluated more than once in one render (body of a loop over a slice / range / a custom iterator / a map, of a function called twice, of a partial, a stored block or a helper block used twice). Oracle for E1 R1 R2: the statement's own (failing helper invoked => non-nil error, errors.Is(err, original), empty output) plus, in both directions, the reference interpreter: the render fails exactly when the reference says a fault is evaluated outside the tolerated positions (unknown identifier as condition or operand of ! == != && ||), and otherwise renders the reference output. (E2, raw templates for what the mini-AST cannot spell) 70 faults x 278 hand-written positions. Faults: instrumented failing helpers of every signature and error type (variadic, error-only result, three results, typed error, a BARE *ErrUnknownIdentifier, one wrapping it, given a block, value / pointer / field / element / chained methods, member / index / call / method of a failing result, failing helper as a fixed parameter, in the fixed head and in the tail of a variadic helper, in an options map, as argument of a method, a partial whose feeder / body / layout fails or whose layout is missing, a nested Render through the helper context, a failing block of a block helper / of htmlEscape / default block of contentOf, a function literal called on the spot, a helper held in a variable), helpers that panic (with a string / with an error: failure and empty output asserted, not errors.Is), failing operations (division by a zero variable, float division by zero, mismatched operands, out-of-range / string / int-target indexing, call of a non-function, too many / wrongly typed arguments, missing field / method, member of a string, bad regular expression, missing contentOf block, len of an int, groupBy(0), pathFor(nil), toJSON of a function, loop over an int; index assignment out of range / into an int / of the wrong element type / with a failing value or index, let with a failing value), and values that cannot be PRINTED (a slice containing itself, String / HTML methods that panic; only in positions seen to print a probe value). That an operation is a fault is not read off the implementation: its baseline (the fault alone in one tag) must fail, otherwise it is dropped and counted - except for ten operations that have no result under any reading (those the reference interpreter fails on, and assignment to an index that does not exist), whose baseline succeeding is itself a violation. Positions: parentheses; ! !! and ! over == / ||; either side of == != && || with the other side 1 / nil / unknown; || and && chains; nestings of the tolerant operators; both sides of the 9 other operators; if conditions (plain, negated, == nil, unknown || it, unknown == it, it && unknown, silent, in one tag), else-if conditions in 8 chain shapes, conditions inside taken branches; branch bodies and return in a branch; array / hash / nested literals; index / second index / index before a member / of a map; arguments of helpers with one, two, variadic, fixed-head-variadic parameters, of methods, in options maps before a helper context, of block helpers, of len raw range truncate capitalize debug toJSON groupBy, nested calls; name / data / layout of a partial, name / data of contentOf, name of contentFor; let, assignment, index assignment (value and index), top-level return; user functions (arguments, return, silent call, as condition / under == / under ! / in an else-if, rendering body, let and condition inside, called through another function, innermost recursion level, passed through a helper); loops over 15 kinds of iterable (slice, typed slice, string slice, Go array, pointer to a slice, array literal, maps with 1 / 3 / int keys, hash literal, range until between groupBy, a custom Iterator) x body / silent body / condition in the body, second iteration only, after continue, before break, inner loop body / iterable, loops inside functions; blocks of helpers (child / same context, silent, rendered twice, with argument, htmlEscape, default block of contentOf with / without data, block in block / loop / function, as a condition), contentFor blocks rendered by contentOf (with data, second use only, inside a block, as a condition, under ==, inside a partial, redefined, defined in a partial and rendered by its layout); partials (body, silent tag, condition, as condition / under == / ! / else-if, silent call, nested 2 and 3 deep, layout before / after yield, body under a layout, layout of a layout, in a loop, second iteration only, in a block, in a function, block / loop / contentFor inside a partial, data used inside); nested Render (plain, as a condition, in a block in a partial); after / before 900 bytes of output, last of 41 tags, after a forgiven unknown identifier, after an identical call site in an untaken branch, on line 5; statement positions (silent tag, branches, loops, function, block, contentFor, partial); and 23 positions in which the placeholder is NOT evaluated (short-circuit, untaken branches, later else-ifs, uncalled function, after return / break / continue, empty loops, never-rendered contentFor / partial / block, default block of contentOf when the contentFor exists, shadowed contentFor), where the render must succeed with the given text. Every position's claim is validated with a helper that simply succeeds (it must run / must not run), else the position is dropped and counted. (E3) 65 call sites evaluated N = 2..4 times in one render (loops over 13 kinds of iterable x body / condition / operand of ==, identical sites, operands, elements, arguments, functions, recursion, blocks rendered twice / in loops, stored blocks and partials used three times, layouts, nested Render) x the invocation K = 1..N+1 on which the helper fails (K <= N must fail, K = N+1 must render the given text) x 9 entry points. (R3) random (position, fault) through the other entry points: Template.Exec after a healthy Exec of the same Template (helpers succeed, divisor non-zero), Exec twice, Clone, Render with the template cache on after a healthy / a failing render, RenderR, BuffaloRenderer, data in the outer context. Oracle for E2 E3 R3: the statement's own, plus the construction of the position (placeholder evaluated => the render fails; not evaluated => it renders the given text). Non-trivial = the program contains a fault (reached or not); distinct by template + partial texts (E1 R1 R2) or by position + fault + entry point (E2 E3 R3)."
 
 func setup(t *testing.T) *vk.Run {
 	r := vk.Start(t, "C05", rule,
@@ -257,12 +318,19 @@ func setup(t *testing.T) *vk.Run {
 		}
 		return run(r, prog, parts, "replay")
 	})
+	r.Replayer("raw", func(raw json.RawMessage) *vk.Fail {
+		var c RawCase
+		if f := vk.Decode(raw, &c); f != nil {
+			return f
+		}
+		return runRaw(r, c, "replay")
+	})
 	return r
 }
 
 func TestReplay(t *testing.T) { setup(t).ReplayEnv() }
 
-var faultNames = []string{"boom()", "1/0", `1+"a"`, "arr[99]", "unknown identifier", "helper error wrapping an unknown-identifier error"}
+var faultNames = []string{"boom()", "1/0", `1+"a"`, "arr[99]", "unknown identifier", "helper error wrapping an unknown-identifier error", "helper failing on its 2nd invocation", "helper failing on its 3rd invocation"}
 
 func TestProp(t *testing.T) {
 	r := setup(t)
@@ -270,7 +338,7 @@ func TestProp(t *testing.T) {
 	r.ReplayCommitted()
 
 	var cells int64
-	for fi, f := range []model.Expr{boom, divZero, mixed, oob, unknown, wrapunk} {
+	for fi, f := range []model.Expr{boom, divZero, mixed, oob, unknown, wrapunk, flaky2, flaky3} {
 		pos := positions(f)
 		var keys []string
 		for k := range pos {
@@ -290,11 +358,962 @@ func TestProp(t *testing.T) {
 			}
 		}
 	}
-	r.Subspace("6 fault kinds x 68 syntactic positions", cells, true)
+	r.Subspace(fmt.Sprintf("%d fault kinds x %d syntactic positions (mini-AST; each map-loop position 8 times)", len(faultNames), len(positions(boom))), cells, true)
 
-	r.Rapid("programs", r.Pick(6000, 80000), func(t *rapid.T) *vk.Fail {
+	r.Rapid("programs", r.Pick(5000, 50000), func(t *rapid.T) *vk.Fail {
 		g := progs.New(t, progs.Options{MaxDepth: 3, FaultRate: rapid.SampledFrom([]int{4, 7, 15}).Draw(t, "rate"), Faults: faults})
 		prog := g.Nodes(3, false)
 		return run(r, prog, g.Partials, "random")
 	})
+
+	// the same random program evaluated SEVERAL times within one render: as the body of a loop (slice, range iterator,
+	// custom iterator, map), of a function called twice, of a partial / stored block / helper block used twice
+	r.Rapid("programs-repeated", r.Pick(3000, 25000), func(t *rapid.T) *vk.Fail {
+		g := progs.New(t, progs.Options{MaxDepth: 2, FaultRate: rapid.SampledFrom([]int{5, 9, 20}).Draw(t, "rate"), Faults: faults})
+		prog := g.Nodes(2, false)
+		kind := rapid.SampledFrom(repeatKinds).Draw(t, "repeat")
+		prog, parts := repeated(kind, prog, g.Partials)
+		return run(r, prog, parts, "repeated/"+kind)
+	})
+
+	// RAW: hand-written positions x faults of every signature (E), then the same through the other entry points (R)
+	pos := validPositions(r)
+	cells = 0
+	for _, p := range pos {
+		for _, f := range rawFaults {
+			c, ok := mkRaw(p, f)
+			if !ok {
+				continue
+			}
+			if r.Mine(cells) {
+				r.Check(runRaw(r, c, "raw/"+kindOf(f)))
+			}
+			cells++
+		}
+	}
+	r.Subspace(fmt.Sprintf("raw: %d positions x %d faults (statement faults in statement positions only)", len(pos), len(rawFaults)), cells, true)
+	fps := flakyPositions()
+	cells = 0
+	for _, p := range fps {
+		for k := 1; k <= p.N+1; k++ {
+			for _, e := range rawEntries {
+				c := mkFlaky(p, k)
+				c.Entry = e
+				if r.Mine(cells) {
+					r.Check(runRaw(r, c, "raw/history"))
+				}
+				cells++
+			}
+		}
+	}
+	r.Subspace(fmt.Sprintf("raw: %d call sites evaluated N times x failing invocation 1..N+1 x %d entry points", len(fps), len(rawEntries)), cells, true)
+	r.Rapid("raw-entries", r.Pick(2500, 25000), func(t *rapid.T) *vk.Fail {
+		p := pos[rapid.IntRange(0, len(pos)-1).Draw(t, "pos")]
+		f := rawFaults[rapid.IntRange(0, len(rawFaults)-1).Draw(t, "fault")]
+		c, ok := mkRaw(p, f)
+		if !ok {
+			c, _ = mkRaw(p, rawFaults[0])
+		}
+		c.Entry = rawEntries[rapid.IntRange(1, len(rawEntries)-1).Draw(t, "entry")]
+		return runRaw(r, c, "raw-entry/"+c.Entry)
+	})
+}
+
+func kindOf(f rawFault) string {
+	switch {
+	case f.NoIs:
+		return "panicking helper"
+	case f.Helper:
+		return "failing helper"
+	case f.EmitOnly:
+		return "unprintable value"
+	}
+	return "failing operation"
+}
+
+var repeatKinds = []string{"loop over a slice", "loop over range", "loop over a custom iterator", "loop over a map", "function called twice", "partial rendered twice", "stored block rendered twice", "helper block in a loop"}
+
+// repeated wraps a program so that it is evaluated more than once in one render.
+func repeated(kind string, prog []model.Node, partials map[string][]model.Node) ([]model.Node, map[string][]model.Node) {
+	loop := func(iter model.Expr, key string) []model.Node {
+		return []model.Node{model.Text{S: "<"}, model.EmitFor{For: &model.For{Key: key, Val: "rv", Iter: iter, Body: prog}}, model.Text{S: ">"}}
+	}
+	switch kind {
+	case "loop over a slice":
+		return loop(model.Var{Name: "two"}, ""), partials
+	case "loop over range":
+		return loop(model.Call{Fn: "range", Args: []model.Expr{model.Lit{V: 1}, model.Lit{V: 2}}}, ""), partials
+	case "loop over a custom iterator":
+		return loop(model.Var{Name: "it"}, "rk"), partials
+	case "loop over a map":
+		return loop(model.Var{Name: "mp"}, "rk"), partials
+	case "function called twice":
+		return []model.Node{model.Code{S: model.LetS{Name: "rf", X: model.FnLit{Body: prog}}}, model.Text{S: "<"}, model.Emit{X: model.Call{Fn: "rf"}}, model.Text{S: "|"}, model.Emit{X: model.Call{Fn: "rf"}}, model.Text{S: ">"}}, partials
+	case "partial rendered twice":
+		ps := map[string][]model.Node{"rpart": prog}
+		for n, b := range partials {
+			ps[n] = b
+		}
+		return []model.Node{model.Text{S: "<"}, model.EmitPartial{Name: "rpart", Data: []model.KV{}}, model.Text{S: "|"}, model.EmitPartial{Name: "rpart", Data: []model.KV{}}, model.Text{S: ">"}}, ps
+	case "stored block rendered twice":
+		return []model.Node{model.ContentFor{Name: "rcf", Body: prog}, model.Text{S: "<"}, model.EmitContentOf{Name: "rcf", Data: []model.KV{}}, model.Text{S: "|"}, model.EmitContentOf{Name: "rcf", Data: []model.KV{}}, model.Text{S: ">"}}, partials
+	case "helper block in a loop":
+		return []model.Node{model.Text{S: "<"}, model.EmitFor{For: &model.For{Val: "rv", Iter: model.Var{Name: "two"}, Body: []model.Node{model.EmitBlock{Helper: "blk", Body: prog}}}}, model.Text{S: ">"}}, partials
+	}
+	panic("c05: unknown repeat kind " + kind)
+}
+
+// =====================================================================================================
+// RAW phase: shapes the mini-AST cannot spell (methods, member chains, typed and variadic signatures, index
+// assignment, built-in block helpers, layouts, help.Render, entry points other than Render). The templates are
+// written by hand with one placeholder; the oracle is the statement's own plus what the construction of the
+// position says (the placeholder IS evaluated => the render fails; it is NOT evaluated => it renders the given text).
+// =====================================================================================================
+
+// typed error values a helper may return: the original must be found with errors.Is whatever its type
+type codeErr struct{ code int }
+
+func (e *codeErr) Error() string { return fmt.Sprintf("code %d", e.code) }
+
+// rawFix is the instrumented world of one render.
+type rawFix struct {
+	healthy bool  // the instrumented helpers succeed (used for the first of two evaluations of one template)
+	inv     int   // failing helpers that were invoked and returned an error
+	pan     int   // helpers that were invoked and panicked
+	tick    int   // invocations of tick()
+	calls   int   // invocations of flaky()
+	printed int   // times the probe value tp was printed
+	orig    error // the error the (first) failing helper returned
+}
+
+// values that cannot be printed: emitting them is the failing operation
+type badStringer struct{}
+
+func (badStringer) String() string { panic("String() of this value panics") }
+
+type badHTMLer struct{}
+
+func (badHTMLer) HTML() template.HTML { panic("HTML() of this value panics") }
+
+// printProbe counts how often it is printed (to validate which positions print the value of their output tag)
+type printProbe struct{ fx *rawFix }
+
+func (p *printProbe) String() string { p.fx.printed++; return "P" }
+
+func (fx *rawFix) failWith(e error) error {
+	fx.inv++
+	if fx.orig == nil {
+		fx.orig = e
+	}
+	return e
+}
+
+type rawObj struct {
+	fx    *rawFix
+	Name  string
+	Inner *rawObj
+}
+
+func (o rawObj) Fail() (string, error) {
+	if o.fx.healthy {
+		return "ok", nil
+	}
+	return "", o.fx.failWith(sentinel)
+}
+func (o *rawObj) PFail() (string, error)  { return rawObj.Fail(*o) }
+func (o rawObj) Self() rawObj             { return o }
+func (o rawObj) Get(i interface{}) string { return "g" }
+func (o rawObj) FailObj() (*rawObj, error) {
+	if o.fx.healthy {
+		return &rawObj{fx: o.fx, Name: "n"}, nil
+	}
+	return nil, o.fx.failWith(sentinel)
+}
+
+// fixed partials of the raw world
+var rawPartials = map[string]string{
+	"ok":     "[ok]",
+	"lay":    "{<%= yield %>}",
+	"bad":    "[bad <%= boom() %>]",
+	"badlay": "{<%= yield %><%= boom() %>}",
+	"usecf":  "[<%= contentOf(\"cf\") %>]",
+}
+
+func (fx *rawFix) data(c *RawCase) map[string]interface{} {
+	failing := func(e error) (interface{}, error) {
+		if fx.healthy {
+			return 1, nil
+		}
+		return nil, fx.failWith(e)
+	}
+	inner := &rawObj{fx: fx, Name: "in"}
+	blockIn := func(child bool) func(help plush.HelperContext) (template.HTML, error) {
+		return func(help plush.HelperContext) (template.HTML, error) {
+			var s string
+			var err error
+			if child {
+				s, err = help.BlockWith(help.New())
+			} else {
+				s, err = help.Block()
+			}
+			return template.HTML(s), err
+		}
+	}
+	d := map[string]interface{}{
+		// instrumented failing helpers, one per signature / error type
+		"boom":    func() (interface{}, error) { return failing(sentinel) },
+		"boomv":   func(a ...interface{}) (interface{}, error) { return failing(sentinel) },
+		"onlyerr": func() error { _, err := failing(sentinel); return err },
+		"three":   func() (int, string, error) { _, err := failing(sentinel); return 1, "x", err },
+		"terr":    func() (string, error) { _, err := failing(&codeErr{7}); return "v", err },
+		"bareunk": func() (interface{}, error) { return failing(&plush.ErrUnknownIdentifier{ID: "inner"}) },
+		"wrapunk": func() (interface{}, error) {
+			return failing(fmt.Errorf("nested render failed: %w: %w", sentinel, &plush.ErrUnknownIdentifier{ID: "inner"}))
+		},
+		"boomblk": func(help plush.HelperContext) (template.HTML, error) { _, err := failing(sentinel); return "B", err },
+		"pan": func() string {
+			if fx.healthy {
+				return "ok"
+			}
+			fx.pan++
+			panic("kaboom")
+		},
+		"panerr": func() string {
+			if fx.healthy {
+				return "ok"
+			}
+			fx.pan++
+			panic(sentinel)
+		},
+		// flaky(k): "." until the k-th invocation in this render, which fails (and every later one)
+		"flaky": func(k int) (string, error) {
+			fx.calls++
+			if !fx.healthy && fx.calls >= k {
+				return "", fx.failWith(sentinel)
+			}
+			return ".", nil
+		},
+		"tick": func() int { fx.tick++; return 1 },
+		// plain helpers of several signatures
+		"id":       func(a interface{}) interface{} { return a },
+		"id2":      func(a, b interface{}) interface{} { return a },
+		"vid":      func(a ...interface{}) interface{} { return len(a) },
+		"hv":       func(a interface{}, b ...interface{}) interface{} { return a },
+		"withmap":  func(m map[string]interface{}) interface{} { return len(m) },
+		"withhelp": func(a interface{}, m map[string]interface{}, help plush.HelperContext) interface{} { return a },
+		"blkarg": func(a interface{}, help plush.HelperContext) (template.HTML, error) {
+			s, err := help.Block()
+			return template.HTML(s), err
+		},
+		"blk":  blockIn(true),
+		"blk0": blockIn(false),
+		"twice": func(help plush.HelperContext) (template.HTML, error) {
+			a, err := help.Block()
+			if err != nil {
+				return "", err
+			}
+			b, err := help.BlockWith(help.New())
+			return template.HTML(a + b), err
+		},
+		"neverblk": func(help plush.HelperContext) string { return "N" },
+		"rend": func(s string, help plush.HelperContext) (template.HTML, error) {
+			r, err := help.Render(s)
+			return template.HTML(r), err
+		},
+		// data
+		"obj": rawObj{fx: fx, Name: "o", Inner: inner}, "pobj": &rawObj{fx: fx, Name: "p", Inner: inner},
+		"objs":   []rawObj{{fx: fx, Name: "a"}, {fx: fx, Name: "b"}},
+		"getobj": func() rawObj { return rawObj{fx: fx, Name: "got"} },
+		"arr":    []interface{}{10, 20, 30}, "two": []interface{}{1, 2}, "ints": []int{1, 2, 3}, "garr": [2]int{1, 2},
+		"parr": &[]interface{}{1, 2}, "strs": []string{"p", "q"},
+		"m": map[string]interface{}{"a": 1}, "m3": map[string]interface{}{"a": 1, "b": 2, "c": 3}, "im": map[int]string{1: "x", 2: "y"},
+		"it":     &countIter{n: 3},
+		"badstr": badStringer{}, "badhtml": badHTMLer{}, "tp": &printProbe{fx},
+		"i0": 0, "i1": 1, "i7": 7, "s3": "plain", "t": true, "f": false, "fl": 1.5,
+		"tsrc": c.Tsrc,
+		"partialFeeder": func(name string) (string, error) {
+			if s, ok := c.Partials[name]; ok {
+				return s, nil
+			}
+			if s, ok := rawPartials[name]; ok {
+				return s, nil
+			}
+			// the application's feeder fails: the partial helper returns this error
+			return "", fx.failWith(fmt.Errorf("no partial %q: %w", name, sentinel))
+		},
+	}
+	if c.CT != "" {
+		d["contentType"] = c.CT
+	}
+	self := make([]interface{}, 2)
+	self[0], self[1] = "in", self
+	d["selfslice"] = self
+	if fx.healthy {
+		d["dz"] = 1
+	} else {
+		d["dz"] = 0
+	}
+	return d
+}
+
+type rawFault struct {
+	Name   string
+	Text   string
+	Stmt   bool // stands as a statement only
+	Helper bool // an instrumented helper fails: the statement's oracle applies directly
+	NoIs   bool // the helper panics: no original error to be found
+	// Sure: an operation that has no result whatever the implementation (the reference interpreter, written from the
+	// statements, fails on its like: division by zero, index out of range, mismatched operands, a non-iterable, a
+	// missing stored block, a bad pattern). Its baseline succeeding is itself a violation; for the others the baseline
+	// only decides whether the fault is one.
+	Sure bool
+	// EmitOnly: a value that cannot be PRINTED; it fails only where an output tag prints it (positions whose
+	// placeholders all stand as `<%= @ %>` and that were seen to print a probe value)
+	EmitOnly bool
+}
+
+// rawFaults: instrumented helpers of every signature and error type, then other failing operations. That an
+// operation fails is not taken from the implementation: its baseline `<%= F %>` / `<% F %>` must fail, otherwise the
+// fault is dropped (counted as raw/not-a-fault).
+var rawFaults = []rawFault{
+	{Name: "helper() (interface{}, error)", Text: `boom()`, Helper: true},
+	{Name: "variadic helper", Text: `boomv(1, "x")`, Helper: true},
+	{Name: "helper() error", Text: `onlyerr()`, Helper: true},
+	{Name: "helper() (int, string, error)", Text: `three()`, Helper: true},
+	{Name: "helper returning a typed error", Text: `terr()`, Helper: true},
+	{Name: "helper returning a bare *ErrUnknownIdentifier", Text: `bareunk()`, Helper: true},
+	{Name: "helper error wrapping an unknown-identifier error", Text: `wrapunk()`, Helper: true},
+	{Name: "failing helper given a block", Text: `boomblk() { %>x<% }`, Helper: true},
+	{Name: "value method", Text: `obj.Fail()`, Helper: true},
+	{Name: "pointer method", Text: `pobj.PFail()`, Helper: true},
+	{Name: "pointer method on a value", Text: `obj.PFail()`, Helper: true},
+	{Name: "method of a field", Text: `obj.Inner.Fail()`, Helper: true},
+	{Name: "method of an element", Text: `objs[1].Fail()`, Helper: true},
+	{Name: "method of a method result", Text: `obj.Self().Fail()`, Helper: true},
+	{Name: "method of a helper result", Text: `getobj().Fail()`, Helper: true},
+	{Name: "member of a failing helper's result", Text: `boom().Name`, Helper: true},
+	{Name: "member of a failing method's result", Text: `obj.FailObj().Name`, Helper: true},
+	{Name: "index of a failing helper's result", Text: `boom()[0]`, Helper: true},
+	{Name: "call of a failing helper's result", Text: `boom()()`, Helper: true},
+	{Name: "method of a failing method's result", Text: `obj.FailObj().Get(1)`, Helper: true},
+	{Name: "failing helper as argument of a method", Text: `obj.Get(boom())`, Helper: true},
+	{Name: "failing helper in a fixed parameter", Text: `id2(1, boom())`, Helper: true},
+	{Name: "failing helper in the fixed head of a variadic helper", Text: `hv(boom(), 1)`, Helper: true},
+	{Name: "failing helper in the variadic tail", Text: `hv(1, 2, boom())`, Helper: true},
+	{Name: "failing helper in an options map", Text: `withhelp(1, {k: boom()})`, Helper: true},
+	{Name: "partial whose feeder fails", Text: `partial("nofile")`, Helper: true},
+	{Name: "partial whose body fails", Text: `partial("bad")`, Helper: true},
+	{Name: "partial whose layout fails", Text: `partial("ok", {layout: "badlay"})`, Helper: true},
+	{Name: "partial whose layout is missing", Text: `partial("ok", {layout: "nofile"})`, Helper: true},
+	{Name: "nested Render through the helper context", Text: `rend("x<" + "%= boom() %" + ">y")`, Helper: true},
+	{Name: "failing block of a block helper", Text: `blk() { %>x<%= boom() %><% }`, Helper: true},
+	{Name: "failing block of htmlEscape", Text: `htmlEscape("s") { %>x<%= boom() %><% }`, Helper: true},
+	{Name: "failing default block of contentOf", Text: `contentOf("nocf") { %>x<%= boom() %><% }`, Helper: true},
+	{Name: "failing function literal called on the spot", Text: `fn() { return boom() }()`, Helper: true},
+	{Name: "helper held in a variable", Text: `heldboom()`, Helper: true},
+	{Name: "panicking helper", Text: `pan()`, Helper: true, NoIs: true},
+	{Name: "helper panicking with an error", Text: `panerr()`, Helper: true, NoIs: true},
+	// operations (baseline-verified)
+	{Name: "division by a zero variable", Text: `i7 / dz`, Sure: true},
+	{Name: "float division by zero", Text: `fl / 0.0`},
+	{Name: "int + string", Text: `i1 + "a"`, Sure: true},
+	{Name: "bool - int", Text: `t - 1`},
+	{Name: "nil + int", Text: `nil + 1`},
+	{Name: "index out of range", Text: `arr[99]`, Sure: true},
+	{Name: "string index into a slice", Text: `arr["x"]`, Sure: true},
+	{Name: "index into an int", Text: `i1[0]`},
+	{Name: "call of a non-function", Text: `i1()`, Sure: true},
+	{Name: "too many arguments", Text: `id(1, 2)`},
+	{Name: "argument of the wrong type", Text: `range("a", 2)`},
+	{Name: "missing field", Text: `obj.Nope`},
+	{Name: "missing method", Text: `obj.Nope()`},
+	{Name: "member of a string", Text: `s3.x`},
+	{Name: "bad regular expression", Text: `"a" ~= "("`, Sure: true},
+	{Name: "missing contentOf block", Text: `contentOf("nocf")`, Sure: true},
+	{Name: "len of an int", Text: `len(i1)`},
+	{Name: "groupBy of size 0", Text: `groupBy(0, arr)`},
+	{Name: "pathFor(nil)", Text: `pathFor(nil)`},
+	{Name: "toJSON of a function", Text: `toJSON(id)`},
+	{Name: "loop over an int", Text: `for (v) in i1 { %>x<% }`, Sure: true},
+	// values that cannot be printed
+	{Name: "printing a slice that contains itself", Text: `selfslice`, EmitOnly: true},
+	{Name: "printing a value whose String panics", Text: `badstr`, EmitOnly: true},
+	{Name: "printing a value whose HTML panics", Text: `badhtml`, EmitOnly: true},
+	{Name: "printing an array holding a value whose String panics", Text: `[1, badstr]`, EmitOnly: true},
+	// statements
+	{Name: "index assignment out of range", Text: `arr[99] = 1`, Stmt: true, Sure: true},
+	{Name: "index assignment into an int", Text: `i1[0] = 1`, Stmt: true},
+	{Name: "index assignment of the wrong element type", Text: `ints[0] = "s"`, Stmt: true},
+	{Name: "index assignment with a failing value", Text: `arr[0] = boom()`, Stmt: true, Helper: true},
+	{Name: "index assignment with a failing index", Text: `arr[boom()] = 1`, Stmt: true, Helper: true},
+	{Name: "map entry assignment with a failing value", Text: `m["k"] = boom()`, Stmt: true, Helper: true},
+	{Name: "let with a failing value", Text: `let q = boom()`, Stmt: true, Helper: true},
+	{Name: "silent loop over an int", Text: `for (v) in i1 { }`, Stmt: true, Sure: true},
+}
+
+type rawPos struct {
+	Name     string
+	Tmpl     string // @ = the fault
+	Partials map[string]string
+	Tsrc     string // template text handed to help.Render through the variable tsrc
+	CT       string // the context's contentType, if any (partials are JavaScript-escaped under a JavaScript one)
+	Stmt     bool   // the placeholder stands where a statement stands (any fault fits); otherwise expression faults only
+	Ok       string // "" : the placeholder is evaluated, the render must fail; otherwise it is not, and this is the output
+	IsOk     bool   // Ok is meaningful even if empty
+	Prints   bool   // set by validPositions: every placeholder is the whole of an output tag and a probe value there was printed
+}
+
+const heldPrefix = `<% let heldboom = boom %>`
+
+func rawPositions() []rawPos {
+	var ps []rawPos
+	add := func(name, tmpl string) { ps = append(ps, rawPos{Name: name, Tmpl: tmpl}) }
+	ok := func(name, tmpl, out string) { ps = append(ps, rawPos{Name: name, Tmpl: tmpl, Ok: out, IsOk: true}) }
+	stmt := func(name, tmpl string) { ps = append(ps, rawPos{Name: name, Tmpl: tmpl, Stmt: true}) }
+	part := func(name, tmpl string, partials map[string]string) {
+		ps = append(ps, rawPos{Name: name, Tmpl: tmpl, Partials: partials})
+	}
+	add("emitted", `a<%= @ %>b`)
+	add("emitted in parentheses", `a<%= ((@)) %>b`)
+	// the tolerant operators: only a bare unknown identifier standing there itself counts as nil
+	add("operand of !", `a<%= !(@) %>b`)
+	add("operand of !!", `a<%= !!(@) %>b`)
+	add("operand of ! over ==", `a<%= !((@) == nil) %>b`)
+	add("operand of ! over ||, left unknown", `a<%= !(nosuch || (@)) %>b`)
+	for _, op := range []string{"==", "!=", "&&", "||"} {
+		add("left of "+op, `a<%= (@) `+op+` 1 %>b`)
+		add("left of "+op+", right unknown", `a<%= (@) `+op+` nosuch %>b`)
+		add("left of "+op+" nil", `a<%= (@) `+op+` nil %>b`)
+	}
+	add("right of ==", `a<%= 1 == (@) %>b`)
+	add("right of !=", `a<%= 1 != (@) %>b`)
+	add("right of == after an unknown", `a<%= nosuch == (@) %>b`)
+	add("right of != after an unknown", `a<%= nosuch != (@) %>b`)
+	add("right of || after an unknown", `a<%= nosuch || (@) %>b`)
+	add("right of && after true", `a<%= t && (@) %>b`)
+	add("right of || after false", `a<%= f || (@) %>b`)
+	add("last of an || chain", `a<%= f || nosuch || (@) %>b`)
+	add("last of an && chain", `a<%= t && i1 && (@) %>b`)
+	add("inner || under &&", `a<%= (f || (@)) && t %>b`)
+	add("inner && under ==", `a<%= (t && (@)) == nil %>b`)
+	add("inner == under ==", `a<%= ((@) == nosuch) == nosuch %>b`)
+	ok("right of && after false", `a<%= f && (@) %>b`, "afalseb")
+	ok("right of || after true", `a<%= t || (@) %>b`, "atrueb")
+	ok("right of && after an unknown", `a<%= nosuch && (@) %>b`, "afalseb")
+	ok("after a deciding || chain", `a<%= f || t || (@) %>b`, "atrueb")
+	for _, op := range []string{"+", "-", "*", "/", "<", "<=", ">", ">=", "~="} {
+		add("left of "+op, `a<%= (@) `+op+` 1 %>b`)
+		add("right of "+op, `a<%= 1 `+op+` (@) %>b`)
+	}
+	add("right of string +", `a<%= "s" + (@) %>b`)
+	// conditions
+	add("if condition", `a<%= if (@) { %>T<% } else { %>F<% } %>b`)
+	add("if condition, negated", `a<%= if (!(@)) { %>T<% } else { %>F<% } %>b`)
+	add("if condition == nil", `a<%= if ((@) == nil) { %>T<% } else { %>F<% } %>b`)
+	add("if condition, unknown || it", `a<%= if (nosuch || (@)) { %>T<% } else { %>F<% } %>b`)
+	add("if condition, unknown == it", `a<%= if (nosuch == (@)) { %>T<% } else { %>F<% } %>b`)
+	add("if condition, it && unknown", `a<%= if ((@) && nosuch) { %>T<% } else { %>F<% } %>b`)
+	add("silent if condition", `a<% if (@) { %>T<% } %>b`)
+	add("silent if condition in one tag", `a<% if (@) { let z = 1 } %>b`)
+	add("else-if condition, last clause", `a<%= if (f) { %>T<% } else if (@) { %>E<% } %>b`)
+	add("else-if condition, then else", `a<%= if (f) { %>T<% } else if (@) { %>E<% } else { %>F<% } %>b`)
+	add("else-if condition, then a true else-if", `a<%= if (f) { %>T<% } else if (@) { %>E<% } else if (t) { %>G<% } %>b`)
+	add("else-if condition, then else-if and else", `a<%= if (f) { %>T<% } else if (@) { %>E<% } else if (f) { %>G<% } else { %>F<% } %>b`)
+	add("second else-if condition after an unknown one", `a<%= if (nosuch) { %>T<% } else if (nosuch) { %>E<% } else if (@) { %>G<% } else { %>F<% } %>b`)
+	add("else-if condition negated, then else", `a<%= if (f) { %>T<% } else if (!(@)) { %>E<% } else { %>F<% } %>b`)
+	add("silent else-if condition, then else", `a<% if (f) { %>T<% } else if (@) { %>E<% } else { %>F<% } %>b`)
+	add("silent else-if condition in one tag, then else", `a<% if (f) { let z = 1 } else if (@) { let z = 2 } else { let z = 3 } %>b`)
+	add("if condition inside a taken branch", `a<%= if (t) { %>x<%= if (@) { %>T<% } %>y<% } %>b`)
+	add("if condition inside an else branch", `a<%= if (f) { %>x<% } else { %><%= if (@) { %>T<% } else { %>F<% } %><% } %>b`)
+	ok("else-if condition after a true if", `a<%= if (t) { %>T<% } else if (@) { %>E<% } else { %>F<% } %>b`, "aTb")
+	ok("else-if condition after a true else-if", `a<%= if (f) { %>T<% } else if (t) { %>E<% } else if (@) { %>G<% } %>b`, "aEb")
+	ok("untaken branch", `a<%= if (f) { %><%= @ %><% } %>b`, "ab")
+	ok("untaken else", `a<%= if (t) { %>T<% } else { %><%= @ %><% } %>b`, "aTb")
+	ok("untaken else-if branch", `a<%= if (f) { %>T<% } else if (f) { %><%= @ %><% } else { %>F<% } %>b`, "aFb")
+	add("taken branch", `a<%= if (t) { %>x<%= @ %>y<% } %>b`)
+	add("taken else", `a<%= if (f) { %>T<% } else { %>x<%= @ %>y<% } %>b`)
+	add("taken else-if branch", `a<%= if (f) { %>T<% } else if (t) { %>x<%= @ %>y<% } else { %>F<% } %>b`)
+	add("taken branch after an unknown condition's else", `a<%= if (nosuch) { %>T<% } else { %>x<%= @ %>y<% } %>b`)
+	add("return in a taken branch", `a<%= if (t) { return @ } %>b`)
+	// literals, indexes
+	add("array element", `a<%= [1, @, 2] %>b`)
+	add("nested array element", `a<%= [[@]] %>b`)
+	add("hash value", `a<%= {a: 1, b: @}["a"] %>b`)
+	add("nested hash value", `a<%= {a: {b: @}}["a"] %>b`)
+	add("array element inside a hash", `a<%= {a: [@]}["a"] %>b`)
+	add("index", `a<%= arr[@] %>b`)
+	add("index inside arithmetic", `a<%= arr[0 + (@)] %>b`)
+	add("indexed operand", `a<%= [@][0] %>b`)
+	add("index of a map", `a<%= m[@] %>b`)
+	add("index before a member", `a<%= objs[@].Name %>b`)
+	add("second index", `a<%= [[1]][0][@] %>b`)
+	// arguments
+	add("argument of a one-parameter helper", `a<%= id(@) %>b`)
+	add("first of two parameters", `a<%= id2(@, 1) %>b`)
+	add("second of two parameters", `a<%= id2(1, @) %>b`)
+	add("only argument of a variadic helper", `a<%= vid(@) %>b`)
+	add("third argument of a variadic helper", `a<%= vid(1, 2, @) %>b`)
+	add("fixed head of a variadic helper", `a<%= hv(@) %>b`)
+	add("fixed head of a variadic helper, tail present", `a<%= hv(@, 1, 2) %>b`)
+	add("variadic tail after the fixed head", `a<%= hv(1, @) %>b`)
+	add("argument of a method", `a<%= obj.Get(@) %>b`)
+	add("argument of a method of a field", `a<%= obj.Inner.Get(@) %>b`)
+	add("value in an options map", `a<%= withmap({k: @}) %>b`)
+	add("argument before options map and helper context", `a<%= withhelp(@, {k: 1}) %>b`)
+	add("options map value before the helper context", `a<%= withhelp(1, {k: @}) %>b`)
+	add("argument of a block helper", `a<%= blkarg(@) { %>x<% } %>b`)
+	add("argument of len", `a<%= len(@) %>b`)
+	add("argument of raw", `a<%= raw(@) %>b`)
+	add("argument of range", `a<%= for (v) in range(1, @) { %>x<% } %>b`)
+	add("argument of truncate", `a<%= truncate(@, {size: 3}) %>b`)
+	add("option of truncate", `a<%= truncate("abcdef", {size: @}) %>b`)
+	add("argument of a helper called in an argument", `a<%= id(id2(1, id(@))) %>b`)
+	add("name of a partial", `a<%= partial(@) %>b`)
+	add("name of a contentOf", `a<%= contentOf(@) %>b`)
+	add("data of a partial", `a<%= partial("ok", {d: @}) %>b`)
+	add("layout of a partial, as an expression", `a<%= partial("ok", {layout: @}) %>b`)
+	add("name of a contentFor", `a<% contentFor(@) { %>x<% } %>b`)
+	add("argument of an inflection helper", `a<%= capitalize(@) %>b`)
+	add("argument of debug", `a<%= debug(@) %>b`)
+	add("argument of toJSON", `a<%= toJSON(@) %>b`)
+	add("argument of groupBy", `a<%= for (v) in groupBy(2, @) { %>x<% } %>b`)
+	add("data of a contentOf", `<% contentFor("cf") { %>C<% } %>a<%= contentOf("cf", {d: @}) %>b`)
+	// variables
+	add("let value", `a<% let z = @ %>b`)
+	add("assignment value", `<% let z = 1 %>a<% z = @ %>b`)
+	add("let value inside a block", `a<% if (t) { let z = @ } %>b`)
+	add("index assignment value", `a<% arr[0] = @ %>b`)
+	add("index assignment index", `a<% arr[@] = 1 %>b`)
+	add("map entry assignment value", `a<% m["k"] = @ %>b`)
+	add("returned at the top", `a<% return @ %>b`)
+	// user functions
+	add("argument of a user function", `<% let uf = fn(x) { return "r" } %>a<%= uf(@) %>b`)
+	add("second argument of a user function", `<% let uf = fn(x, y) { return x } %>a<%= uf(1, @) %>b`)
+	add("returned by a user function", `<% let uf = fn() { return @ } %>a<%= uf() %>b`)
+	add("returned by a user function, silent call", `<% let uf = fn() { return @ } %>a<% uf() %>b`)
+	add("returned by a user function used as a condition", `<% let uf = fn() { return @ } %>a<%= if (uf()) { %>T<% } else { %>F<% } %>b`)
+	add("returned by a user function under ==", `<% let uf = fn() { return @ } %>a<%= uf() == nil %>b`)
+	add("returned by a user function under !", `<% let uf = fn() { return @ } %>a<%= !uf() %>b`)
+	add("returned by a user function in an else-if, then else", `<% let uf = fn() { return @ } %>a<%= if (f) { %>T<% } else if (uf()) { %>E<% } else { %>F<% } %>b`)
+	add("rendered by a user function", `<% let uf = fn() { %>x<%= @ %>y<% } %>a<%= uf() %>b`)
+	add("let in a user function", `<% let uf = fn() { let z = @
+return "r" } %>a<%= uf() %>b`)
+	add("condition in a user function", `<% let uf = fn() { if (@) { return "T" }
+return "F" } %>a<%= uf() %>b`)
+	add("user function called by a user function", `<% let g = fn() { return @ } %><% let uf = fn() { return g() } %>a<%= uf() %>b`)
+	add("innermost level of a recursion", `<% let uf = fn(n) { if (n == 0) { return @ }
+return uf(n - 1) } %>a<%= uf(5) %>b`)
+	add("user function passed to a helper and back", `<% let uf = fn() { return @ } %><% let g = id(uf) %>a<%= g() %>b`)
+	ok("user function never called", `<% let uf = fn() { return @ } %>ab`, "ab")
+	ok("after a return in a user function", "<% let uf = fn() { return \"r\"\n@ } %>a<%= uf() %>b", "arb")
+	// loops
+	add("loop iterable", `a<%= for (v) in @ { %>x<% } %>b`)
+	add("element of a literal iterable", `a<%= for (v) in [1, @] { %>x<% } %>b`)
+	add("value of a hash iterable", `a<% for (k, v) in {p: @} { %>x<% } %>b`)
+	for _, it := range []struct{ name, expr string }{
+		{"a slice", "two"}, {"a typed slice", "ints"}, {"a string slice", "strs"}, {"a Go array", "garr"}, {"a pointer to a slice", "parr"},
+		{"an array literal", "[1, 2]"}, {"a one-entry map", "m"}, {"a three-entry map", "m3"}, {"an int-keyed map", "im"}, {"a hash literal", "{p: 1, q: 2}"},
+		{"range", "range(1, 3)"}, {"until", "until(3)"}, {"between", "between(0, 4)"}, {"groupBy", "groupBy(2, arr)"}, {"a custom iterator", "it"},
+	} {
+		add("body of a loop over "+it.name, `a<%= for (k, v) in `+it.expr+` { %>x<%= @ %><% } %>b`)
+		add("silent body of a loop over "+it.name, `a<% for (v) in `+it.expr+` { let z = @ } %>b`)
+		add("condition in the body of a loop over "+it.name, `a<%= for (v) in `+it.expr+` { %><%= if (@) { %>T<% } else { %>F<% } %><% } %>b`)
+	}
+	add("loop body, second iteration only", `a<%= for (v) in two { %>x<%= if (v == 2) { %><%= @ %><% } %><% } %>b`)
+	add("loop body, after a continue in the first iteration", `a<%= for (v) in two { %>x<% if (v == 1) { continue } %><%= @ %><% } %>b`)
+	add("loop body, before a break", `a<%= for (v) in two { %>x<%= @ %><% break %><% } %>b`)
+	add("inner loop body", `a<%= for (v) in two { %><%= for (w) in two { %>x<%= @ %><% } %><% } %>b`)
+	add("inner loop iterable", `a<%= for (v) in two { %><%= for (w) in @ { %>x<% } %><% } %>b`)
+	add("loop body inside a user function", `<% let uf = fn() { %><%= for (v) in two { %>x<%= @ %><% } %><% } %>a<%= uf() %>b`)
+	add("iterator loop body inside a user function, silent", `<% let uf = fn() { for (v) in range(1, 2) { let z = @ }
+return "done" } %>a<%= uf() %>b`)
+	ok("body of a loop over nothing", `a<%= for (v) in [] { %>x<%= @ %><% } %>b`, "ab")
+	ok("body of a loop over until(0)", `a<%= for (v) in until(0) { %>x<%= @ %><% } %>b`, "ab")
+	ok("loop body after break", `a<%= for (v) in two { %>x<% break %><%= @ %><% } %>b`, "axb")
+	ok("loop body after continue", `a<%= for (v) in two { %>x<% continue %><%= @ %><% } %>b`, "axxb")
+	// blocks of helpers
+	add("block of a helper (child context)", `a<%= blk() { %>x<%= @ %>y<% } %>b`)
+	add("block of a helper (same context)", `a<%= blk0() { %>x<%= @ %>y<% } %>b`)
+	add("block of a helper, silent", `a<% blk() { %>x<%= @ %>y<% } %>b`)
+	add("block rendered twice", `a<%= twice() { %>x<%= @ %>y<% } %>b`)
+	add("block of a helper with an argument", `a<%= blkarg(1) { %>x<%= @ %>y<% } %>b`)
+	add("block of htmlEscape", `a<%= htmlEscape("s") { %>x<%= @ %>y<% } %>b`)
+	add("default block of contentOf", `a<%= contentOf("nocf") { %>x<%= @ %>y<% } %>b`)
+	add("default block of contentOf with data", `a<%= contentOf("nocf", {d: 1}) { %>x<%= @ %>y<% } %>b`)
+	add("block in a block", `a<%= blk() { %>x<%= blk0() { %><%= @ %><% } %>y<% } %>b`)
+	add("let in a block", `a<%= blk() { %>x<% let z = @ %>y<% } %>b`)
+	add("condition in a block", `a<%= blk() { %><%= if (@) { %>T<% } else { %>F<% } %><% } %>b`)
+	add("block in a loop", `a<%= for (v) in two { %><%= blk() { %>x<%= @ %><% } %><% } %>b`)
+	add("loop in a block", `a<%= blk() { %><%= for (v) in two { %>x<%= @ %><% } %><% } %>b`)
+	add("block in a user function", `<% let uf = fn() { %><%= blk() { %>x<%= @ %><% } %><% } %>a<%= uf() %>b`)
+	add("block as a condition", `a<%= if (blk() { %><%= @ %><% }) { %>T<% } else { %>F<% } %>b`)
+	add("contentFor block rendered by contentOf", `a<% contentFor("cf") { %>x<%= @ %><% } %>m<%= contentOf("cf") %>b`)
+	add("contentFor block rendered by contentOf with data", `a<% contentFor("cf") { %>x<%= @ %><% } %>m<%= contentOf("cf", {d: 1}) %>b`)
+	add("contentFor block rendered by the second contentOf only", `a<% contentFor("cf") { %>x<%= if (d == 2) { %><%= @ %><% } %><% } %>m<%= contentOf("cf", {d: 1}) %><%= contentOf("cf", {d: 2}) %>b`)
+	add("contentFor block rendered inside a block", `a<% contentFor("cf") { %>x<%= @ %><% } %><%= blk() { %><%= contentOf("cf") %><% } %>b`)
+	add("contentFor block rendered as a condition", `a<% contentFor("cf") { %>x<%= @ %><% } %><%= if (contentOf("cf")) { %>T<% } else { %>F<% } %>b`)
+	add("contentFor block rendered under ==", `a<% contentFor("cf") { %>x<%= @ %><% } %><%= contentOf("cf") == nosuch %>b`)
+	add("contentFor block rendered inside a partial", `a<% contentFor("cf") { %>x<%= @ %><% } %><%= partial("usecf") %>b`)
+	add("contentFor redefined, rendered", `a<% contentFor("cf") { %>first<% } %><% contentFor("cf") { %>x<%= @ %><% } %><%= contentOf("cf") %>b`)
+	ok("contentFor block never rendered", `a<% contentFor("cf") { %>x<%= @ %><% } %>b`, "ab")
+	ok("default block of contentOf when the contentFor exists", `<% contentFor("cf") { %>C<% } %>a<%= contentOf("cf") { %>x<%= @ %><% } %>b`, "aCb")
+	ok("block of a helper that never renders it", `a<%= neverblk() { %>x<%= @ %><% } %>b`, "aNb")
+	ok("contentFor redefined, the first never rendered", `a<% contentFor("cf") { %>x<%= @ %><% } %><% contentFor("cf") { %>second<% } %><%= contentOf("cf") %>b`, "asecondb")
+	// partials, layouts, nested renders
+	part("partial body", `a<%= partial("p") %>b`, map[string]string{"p": `[p <%= @ %>]`})
+	part("partial body, silent tag", `a<%= partial("p") %>b`, map[string]string{"p": `[p <% let z = @ %>]`})
+	part("partial body, condition", `a<%= partial("p") %>b`, map[string]string{"p": `[p <%= if (@) { %>T<% } else { %>F<% } %>]`})
+	part("partial as a condition", `a<%= if (partial("p")) { %>T<% } else { %>F<% } %>b`, map[string]string{"p": `[p <%= @ %>]`})
+	part("partial under ==", `a<%= partial("p") == nosuch %>b`, map[string]string{"p": `[p <%= @ %>]`})
+	part("partial under !", `a<%= !partial("p") %>b`, map[string]string{"p": `[p <%= @ %>]`})
+	part("partial in an else-if, then else", `a<%= if (f) { %>T<% } else if (partial("p")) { %>E<% } else { %>F<% } %>b`, map[string]string{"p": `[p <%= @ %>]`})
+	part("partial, silent call", `a<% partial("p") %>b`, map[string]string{"p": `[p <%= @ %>]`})
+	part("partial in a partial", `a<%= partial("q") %>b`, map[string]string{"p": `[p <%= @ %>]`, "q": `[q <%= partial("p") %>]`})
+	part("partial in a partial in a partial", `a<%= partial("r") %>b`, map[string]string{"p": `[p <%= @ %>]`, "q": `[q <%= partial("p") %>]`, "r": `[r <%= partial("q") %>]`})
+	part("layout of a partial", `a<%= partial("ok", {layout: "pl"}) %>b`, map[string]string{"pl": `{<%= yield %><%= @ %>}`})
+	part("layout of a partial, before yield", `a<%= partial("ok", {layout: "pl"}) %>b`, map[string]string{"pl": `{<%= @ %><%= yield %>}`})
+	part("partial body under a layout", `a<%= partial("p", {layout: "lay"}) %>b`, map[string]string{"p": `[p <%= @ %>]`})
+	part("layout of a layout", `a<%= partial("ok", {layout: "pl"}) %>b`, map[string]string{"pl": `<%= partial("lay2", {layout: "pl2"}) %>`, "lay2": "L", "pl2": `{<%= yield %><%= @ %>}`})
+	part("partial in a loop", `a<%= for (v) in two { %><%= partial("p") %><% } %>b`, map[string]string{"p": `[p <%= @ %>]`})
+	part("partial in a loop, second iteration only", `a<%= for (v) in two { %><%= partial("p", {n: v}) %><% } %>b`, map[string]string{"p": `[p <%= if (n == 2) { %><%= @ %><% } %>]`})
+	part("partial in a block", `a<%= blk() { %><%= partial("p") %><% } %>b`, map[string]string{"p": `[p <%= @ %>]`})
+	part("partial in a user function", `<% let uf = fn() { return partial("p") } %>a<%= uf() %>b`, map[string]string{"p": `[p <%= @ %>]`})
+	part("block in a partial", `a<%= partial("p") %>b`, map[string]string{"p": `[p <%= blk() { %><%= @ %><% } %>]`})
+	part("loop in a partial", `a<%= partial("p") %>b`, map[string]string{"p": `[p <%= for (v) in two { %><%= @ %><% } %>]`})
+	part("contentFor and contentOf in a partial", `a<%= partial("p") %>b`, map[string]string{"p": `[p <% contentFor("in") { %><%= @ %><% } %><%= contentOf("in") %>]`})
+	part("contentFor defined in a partial, rendered by its layout", `a<%= partial("p", {layout: "pl"}) %>b`, map[string]string{"p": `<% contentFor("side") { %>s<%= @ %><% } %>P`, "pl": `{<%= yield %>|<%= contentOf("side") %>}`})
+	ps = append(ps, rawPos{Name: "contentFor defined in a partial, never rendered", Tmpl: `a<%= partial("p") %>b`, Partials: map[string]string{"p": `<% contentFor("side") { %>s<%= @ %><% } %>P`}, Ok: "aPb", IsOk: true})
+	part("partial data used in a partial", `a<%= partial("p", {d: 1}) %>b`, map[string]string{"p": `[p <%= d + (@) %>]`})
+	js := "application/javascript"
+	ps = append(ps, rawPos{Name: "HTML partial body under a JavaScript content type", Tmpl: `a<%= partial("p.html") %>b`, CT: js, Partials: map[string]string{"p.html": `[p <%= @ %>]`}})
+	ps = append(ps, rawPos{Name: "JavaScript partial body under a JavaScript content type", Tmpl: `a<%= partial("p.js") %>b`, CT: js, Partials: map[string]string{"p.js": `[p <%= @ %>]`}})
+	ps = append(ps, rawPos{Name: "HTML partial under a JavaScript content type, layout fails", Tmpl: `a<%= partial("p.html", {layout: "l.html"}) %>b`, CT: js, Partials: map[string]string{"p.html": `[p]`, "l.html": `{<%= yield %><%= @ %>}`}})
+	ps = append(ps, rawPos{Name: "HTML partial as a condition under a JavaScript content type", Tmpl: `a<%= if (partial("p.html")) { %>T<% } else { %>F<% } %>b`, CT: js, Partials: map[string]string{"p.html": `[p <%= @ %>]`}})
+	ps = append(ps, rawPos{Name: "partial body under an HTML content type", Tmpl: `a<%= partial("p.html") %>b`, CT: "text/html", Partials: map[string]string{"p.html": `[p <%= @ %>]`}})
+	ps = append(ps, rawPos{Name: "nested Render through the helper context", Tmpl: `a<%= rend(tsrc) %>b`, Tsrc: `x<%= @ %>y`})
+	ps = append(ps, rawPos{Name: "nested Render through the helper context, as a condition", Tmpl: `a<%= if (rend(tsrc)) { %>T<% } else { %>F<% } %>b`, Tsrc: `x<%= @ %>y`})
+	ps = append(ps, rawPos{Name: "nested Render in a block in a partial", Tmpl: `a<%= partial("p") %>b`, Tsrc: `x<%= @ %>y`, Partials: map[string]string{"p": `[p <%= blk() { %><%= rend(tsrc) %><% } %>]`}})
+	ps = append(ps, rawPos{Name: "partial never rendered", Tmpl: `a<%= if (f) { %><%= partial("p") %><% } %>b`, Partials: map[string]string{"p": `[p <%= @ %>]`}, Ok: "ab", IsOk: true})
+	// surroundings
+	add("after a lot of output", strings.Repeat("lots of output ", 60)+`<%= "x" %><%= @ %>`)
+	add("before a lot of output", `<%= @ %>`+strings.Repeat("lots of output ", 60))
+	add("last of many tags", strings.Repeat(`<%= i1 %> `, 40)+`<%= @ %>`)
+	add("after a forgiven unknown identifier", `a<%= if (nosuch) { %>T<% } %><%= nosuch == nil %><%= @ %>b`)
+	add("after an identical call site that did not fail", `a<%= if (f) { %><%= @ %><% } %>m<%= @ %>b`)
+	add("on the fifth line", "a\n\n<% let z = 1 %>\n\n<%= @ %>\nb")
+	// statement positions
+	stmt("silent tag", `a<% @ %>b`)
+	stmt("statement in a taken branch", `a<% if (t) { %>x<% @ %>y<% } %>b`)
+	stmt("statement in a taken branch, one tag", "a<% if (t) { let z = 1\n@ } %>b")
+	stmt("statement in an else branch", `a<% if (nosuch) { %>x<% } else { %><% @ %><% } %>b`)
+	stmt("statement in a loop body", `a<%= for (v) in two { %>x<% @ %><% } %>b`)
+	stmt("statement in an iterator loop body", `a<%= for (v) in range(1, 2) { %>x<% @ %><% } %>b`)
+	stmt("statement in a map loop body", `a<% for (k, v) in m3 { %>x<% @ %><% } %>b`)
+	stmt("statement in a user function", "<% let uf = fn() { @\nreturn \"r\" } %>a<%= uf() %>b")
+	stmt("statement in a block", `a<%= blk() { %>x<% @ %>y<% } %>b`)
+	stmt("statement in a contentFor block", `a<% contentFor("cf") { %>x<% @ %><% } %><%= contentOf("cf") %>b`)
+	ps = append(ps, rawPos{Name: "statement in a partial", Tmpl: `a<%= partial("p") %>b`, Partials: map[string]string{"p": `[p <% @ %>]`}, Stmt: true})
+	ps = append(ps, rawPos{Name: "statement in an untaken branch", Tmpl: `a<% if (f) { %>x<% @ %>y<% } %>b`, Stmt: true, Ok: "ab", IsOk: true})
+	ps = append(ps, rawPos{Name: "statement in a function never called", Tmpl: "<% let uf = fn() { @\nreturn 1 } %>ab", Stmt: true, Ok: "ab", IsOk: true})
+	return ps
+}
+
+// RawCase is one raw render: self-contained (the fixture is code).
+type RawCase struct {
+	Pos      string            `json:"pos"`
+	Fault    string            `json:"fault"`
+	Tmpl     string            `json:"tmpl"`
+	Partials map[string]string `json:"partials,omitempty"`
+	Tsrc     string            `json:"tsrc,omitempty"`
+	CT       string            `json:"content_type,omitempty"`
+	Baseline string            `json:"baseline,omitempty"` // the fault alone; must fail for the fault to count as one
+	Helper   bool              `json:"helper,omitempty"`
+	NoIs     bool              `json:"nois,omitempty"`
+	Sure     bool              `json:"sure,omitempty"` // the baseline must fail whatever the implementation
+	MustFail bool              `json:"must_fail"`
+	Out      string            `json:"out,omitempty"`   // expected output when !MustFail
+	Entry    string            `json:"entry,omitempty"` // how the template is rendered ("" = plush.Render)
+}
+
+func mkRaw(p rawPos, f rawFault) (RawCase, bool) {
+	if f.Stmt && !p.Stmt || f.EmitOnly && !p.Prints && !p.IsOk {
+		return RawCase{}, false
+	}
+	sub := func(s string) string { return strings.ReplaceAll(s, "@", f.Text) }
+	c := RawCase{Pos: p.Name, Fault: f.Name, Tmpl: sub(p.Tmpl), Tsrc: sub(p.Tsrc), CT: p.CT, Helper: f.Helper, NoIs: f.NoIs, Sure: f.Sure, MustFail: !p.IsOk, Out: p.Ok}
+	for n, t := range p.Partials {
+		if c.Partials == nil {
+			c.Partials = map[string]string{}
+		}
+		c.Partials[n] = sub(t)
+	}
+	if f.Stmt || strings.HasPrefix(f.Text, "for ") && strings.HasSuffix(f.Text, "{ }") {
+		c.Baseline = "<% " + f.Text + " %>"
+	} else {
+		c.Baseline = "<%= " + f.Text + " %>"
+	}
+	if strings.Contains(f.Text, "heldboom") {
+		c.Tmpl = heldPrefix + c.Tmpl
+		c.Baseline = heldPrefix + c.Baseline
+	}
+	return c, true
+}
+
+var rawEntries = []string{"", "exec after a healthy exec", "exec twice", "clone after a healthy exec", "cached render after a healthy render", "cached render twice", "RenderR", "BuffaloRenderer", "data in the outer context"}
+
+// render evaluates the case through the entry point it names and returns the judged evaluation with its fixture.
+func (c *RawCase) render(tmpl string) (vk.Res, error, *rawFix) {
+	fx := &rawFix{}
+	var rerr error
+	ctxOf := func(x *rawFix) *plush.Context { return plush.NewContextWith(x.data(c)) }
+	res := vk.Safe(func() (string, error) {
+		var s string
+		var err error
+		switch c.Entry {
+		case "":
+			s, err = plush.Render(tmpl, ctxOf(fx))
+		case "exec after a healthy exec", "exec twice", "clone after a healthy exec":
+			t, perr := plush.NewTemplate(tmpl)
+			if perr != nil {
+				return "", perr
+			}
+			first := &rawFix{healthy: c.Entry != "exec twice"}
+			t.Exec(ctxOf(first))
+			if c.Entry == "clone after a healthy exec" {
+				t = t.Clone()
+			}
+			s, err = t.Exec(ctxOf(fx))
+		case "cached render after a healthy render", "cached render twice":
+			old := plush.CacheEnabled
+			plush.CacheEnabled = true
+			defer func() { plush.CacheEnabled = old }()
+			first := &rawFix{healthy: c.Entry != "cached render twice"}
+			plush.Render(tmpl, ctxOf(first))
+			s, err = plush.Render(tmpl, ctxOf(fx))
+		case "RenderR":
+			s, err = plush.RenderR(strings.NewReader(tmpl), ctxOf(fx))
+		case "BuffaloRenderer":
+			s, err = plush.BuffaloRenderer(tmpl, fx.data(c), map[string]interface{}{})
+		case "data in the outer context":
+			s, err = plush.Render(tmpl, ctxOf(fx).New())
+		default:
+			panic("c05: unknown entry " + c.Entry)
+		}
+		rerr = err
+		return s, err
+	})
+	return res, rerr, fx
+}
+
+// parses reports whether every text of the case is a well-formed program (the property quantifies over those only).
+func (c *RawCase) parses() bool {
+	texts := []string{c.Tmpl, c.Baseline}
+	if c.Tsrc != "" {
+		texts = append(texts, c.Tsrc)
+	}
+	for _, t := range c.Partials {
+		texts = append(texts, t)
+	}
+	for _, t := range texts {
+		ok := false
+		vk.Safe(func() (string, error) {
+			_, err := plush.NewTemplate(t)
+			ok = err == nil
+			return "", nil
+		})
+		if !ok {
+			return false
+		}
+	}
+	return true
+}
+
+var (
+	sureMu   sync.Mutex
+	sureSeen = map[string]bool{} // Sure faults whose baseline was already reported (once per process is enough)
+)
+
+func runRaw(r *vk.Run, c RawCase, class string) *vk.Fail {
+	defer r.Watch("raw", c)()
+	fail := func(f string, a ...interface{}) *vk.Fail {
+		return &vk.Fail{Kind: "raw", Case: c, Msg: fmt.Sprintf("[%s / %s / %s] %s: ", c.Pos, c.Fault, c.Entry, c.Tmpl) + fmt.Sprintf(f, a...)}
+	}
+	if !c.parses() {
+		r.Exclude("raw/does-not-parse")
+		return nil
+	}
+	// is the fault a fault? its baseline must fail (helpers: the statement says so; operations: observed at the top level)
+	bc := c
+	bc.Entry = ""
+	bres, berr, bfx := bc.render(c.Baseline)
+	if c.Helper {
+		if bfx.inv+bfx.pan == 0 {
+			r.Exclude("raw/baseline-does-not-invoke")
+			return nil
+		}
+	} else if berr == nil && !bres.Panicked() {
+		if c.Sure {
+			sureMu.Lock()
+			seen := sureSeen[c.Fault]
+			sureSeen[c.Fault] = true
+			sureMu.Unlock()
+			if seen && strings.HasPrefix(class, "raw/") { // in the exhaustive loop only: a generated or replayed case always reports
+				r.Exclude("raw/baseline-violation-already-reported")
+				return nil
+			}
+			r.Count(c.Fault, class+"/baseline")
+			return fail("the operation %s has no result, but on its own it rendered %q without an error", c.Baseline, bres.Out)
+		}
+		r.Exclude("raw/not-a-fault")
+		return nil
+	}
+	res, rerr, fx := c.render(c.Tmpl)
+	key := c.Pos + "\x00" + c.Fault + "\x00" + c.Entry
+	if c.MustFail {
+		class += "/fails"
+	} else {
+		class += "/fault-not-reached"
+	}
+	r.Count(key, class)
+	r.Sample(func() interface{} {
+		return map[string]interface{}{"position": c.Pos, "fault": c.Fault, "entry": c.Entry, "template": c.Tmpl, "partials": c.Partials, "must_fail": c.MustFail, "failing_helper_invocations": fx.inv + fx.pan}
+	})
+	if res.Panicked() {
+		return fail("%s", res)
+	}
+	// the statement's own oracle
+	if fx.inv+fx.pan > 0 && rerr == nil {
+		return fail("a failing helper was invoked (%d returned an error, %d panicked) but the render succeeded with %q", fx.inv, fx.pan, res.Out)
+	}
+	if fx.inv > 0 && fx.pan == 0 && !errors.Is(rerr, fx.orig) {
+		return fail("the failing helper was invoked but errors.Is(err, original %T) is false: %v", fx.orig, rerr)
+	}
+	if rerr != nil && res.Out != "" {
+		return fail("error together with partial output %q (%v)", res.Out, rerr)
+	}
+	// what the construction of the position says
+	if c.MustFail && rerr == nil {
+		return fail("the fault is evaluated at this position (alone it fails with: %v) but the render succeeded with %q", berr, res.Out)
+	}
+	if !c.MustFail {
+		if rerr != nil {
+			return fail("the fault is not evaluated at this position (expected output %q) but the render failed: %v", c.Out, rerr)
+		}
+		if !match.SameText(res.Out, c.Out) {
+			return fail("output %q, expected %q", res.Out, c.Out)
+		}
+	}
+	return nil
+}
+
+// validPositions drops (and counts) positions whose claim about evaluation does not hold for a helper that simply
+// succeeds: tick() must run where the fault is said to be evaluated and must not run where it is said not to be.
+func validPositions(r *vk.Run) []rawPos {
+	var out []rawPos
+	for _, p := range rawPositions() {
+		c, _ := mkRaw(p, rawFault{Text: "tick()"})
+		if !c.parses() {
+			r.Exclude("raw/position-does-not-parse: " + p.Name)
+			continue
+		}
+		_, _, fx := c.render(c.Tmpl)
+		if (fx.tick > 0) == p.IsOk {
+			r.Exclude("raw/position-claim-does-not-hold: " + p.Name)
+			continue
+		}
+		if !p.IsOk && !p.Stmt && strings.Count(p.Tmpl+p.Tsrc+strings.Join(partialTexts(p.Partials), ""), "@") == strings.Count(p.Tmpl+p.Tsrc+strings.Join(partialTexts(p.Partials), ""), "<%= @ %>") {
+			c, _ := mkRaw(p, rawFault{Text: "tp"})
+			_, _, fx := c.render(c.Tmpl)
+			p.Prints = fx.printed > 0
+		}
+		out = append(out, p)
+	}
+	return out
+}
+
+func partialTexts(m map[string]string) []string {
+	var out []string
+	for _, n := range sortedKeys(m) {
+		out = append(out, m[n])
+	}
+	return out
+}
+
+func sortedKeys(m map[string]string) []string {
+	var ks []string
+	for k := range m {
+		ks = append(ks, k)
+	}
+	sort.Strings(ks)
+	return ks
+}
+
+// ---- flaky call sites: one site evaluated N times, the helper fails on its K-th invocation ----------------
+
+type flakyPos struct {
+	Name     string
+	Tmpl     string // K = the invocation that fails
+	Partials map[string]string
+	Tsrc     string
+	N        int    // evaluations of the site in one render
+	Ok       string // output when K = N+1 (never fails)
+}
+
+func flakyPositions() []flakyPos {
+	var ps []flakyPos
+	add := func(name, tmpl string, n int, ok string) {
+		ps = append(ps, flakyPos{Name: name, Tmpl: tmpl, N: n, Ok: ok})
+	}
+	for _, it := range []struct {
+		name, expr string
+		n          int
+	}{
+		{"a slice", "arr", 3}, {"a typed slice", "ints", 3}, {"a string slice", "strs", 2}, {"a Go array", "garr", 2}, {"a pointer to a slice", "parr", 2},
+		{"a three-entry map", "m3", 3}, {"an int-keyed map", "im", 2}, {"a hash literal", "{p: 1, q: 2}", 2},
+		{"range", "range(1, 3)", 3}, {"until", "until(3)", 3}, {"between", "between(0, 4)", 3}, {"groupBy", "groupBy(2, arr)", 2}, {"a custom iterator", "it", 3},
+	} {
+		add("body of a loop over "+it.name, `a<%= for (k, v) in `+it.expr+` { %><%= flaky(K) %><% } %>b`, it.n, "a"+strings.Repeat(".", it.n)+"b")
+		add("condition in a loop over "+it.name, `a<%= for (v) in `+it.expr+` { %><%= if (flaky(K)) { %>T<% } %><% } %>b`, it.n, "a"+strings.Repeat("T", it.n)+"b")
+		add("operand of == in a silent loop over "+it.name, `a<% for (v) in `+it.expr+` { let z = flaky(K) == nosuch } %>b`, it.n, "ab")
+	}
+	add("two identical call sites", `a<%= flaky(K) %>m<%= flaky(K) %>b`, 2, "a.m.b")
+	add("three identical conditions", `a<%= if (flaky(K)) { %>T<% } %><%= if (flaky(K)) { %>T<% } %><%= if (flaky(K)) { %>T<% } %>b`, 3, "aTTTb")
+	add("if and else-if with the same condition", `a<%= if (!flaky(K)) { %>T<% } else if (!flaky(K)) { %>E<% } else { %>F<% } %>b`, 2, "aFb")
+	add("both operands of ==", `a<%= flaky(K) == flaky(K) %>b`, 2, "atrueb")
+	add("both operands of &&", `a<%= flaky(K) && flaky(K) %>b`, 2, "atrueb")
+	add("elements of an array", `a<%= [flaky(K), flaky(K), flaky(K)] %>b`, 3, "a...b")
+	add("arguments of one call", `a<%= id2(flaky(K), flaky(K)) %>b`, 2, "a.b")
+	add("user function called three times", `<% let uf = fn() { return flaky(K) } %>a<%= uf() %><%= uf() %><%= uf() %>b`, 3, "a...b")
+	add("user function as a condition in a loop", `<% let uf = fn() { return flaky(K) } %>a<%= for (v) in arr { %><%= if (uf()) { %>T<% } else { %>F<% } %><% } %>b`, 3, "aTTTb")
+	add("recursion, every level", "<% let uf = fn(n) { let z = flaky(K)\nif (n == 0) { return \"e\" }\nreturn uf(n - 1) } %>a<%= uf(3) %>b", 4, "aeb")
+	add("block rendered twice", `a<%= twice() { %><%= flaky(K) %><% } %>b`, 2, "a..b")
+	add("block in a loop", `a<%= for (v) in arr { %><%= blk() { %><%= flaky(K) %><% } %><% } %>b`, 3, "a...b")
+	add("block of htmlEscape in a loop", `a<%= for (v) in two { %><%= htmlEscape("s") { %><%= flaky(K) %><% } %><% } %>b`, 2, "a..b")
+	add("default block of contentOf in a loop", `a<%= for (v) in two { %><%= contentOf("nocf") { %><%= flaky(K) %><% } %><% } %>b`, 2, "a..b")
+	add("contentFor block rendered three times", `<% contentFor("cf") { %><%= flaky(K) %><% } %>a<%= contentOf("cf") %><%= contentOf("cf", {d: 1}) %><%= contentOf("cf") %>b`, 3, "a...b")
+	add("contentFor block rendered as a condition in a loop", `<% contentFor("cf") { %><%= flaky(K) %><% } %>a<%= for (v) in two { %><%= if (contentOf("cf")) { %>T<% } %><% } %>b`, 2, "aTTb")
+	add("method site in a loop", `a<%= for (v) in two { %><%= obj.Get(flaky(K)) %><% } %>b`, 2, "aggb")
+	add("nested loops", `a<%= for (v) in two { %><%= for (w) in two { %><%= flaky(K) %><% } %><% } %>b`, 4, "a....b")
+	add("index expression in a loop", `a<%= for (v) in two { %><%= [flaky(K)][0] %><% } %>b`, 2, "a..b")
+	add("hash value in a loop", `a<%= for (v) in two { %><%= {p: flaky(K)}["p"] %><% } %>b`, 2, "a..b")
+	add("let value in a loop", `a<% for (v) in arr { let z = flaky(K) } %>b`, 3, "ab")
+	ps = append(ps, flakyPos{Name: "partial rendered three times", Tmpl: `a<%= partial("p") %><%= partial("p") %><%= partial("p", {d: 1}) %>b`, Partials: map[string]string{"p": `<%= flaky(K) %>`}, N: 3, Ok: "a...b"})
+	ps = append(ps, flakyPos{Name: "partial as a condition in a loop", Tmpl: `a<%= for (v) in arr { %><%= if (partial("p")) { %>T<% } else { %>F<% } %><% } %>b`, Partials: map[string]string{"p": `<%= flaky(K) %>`}, N: 3, Ok: "aTTTb"})
+	ps = append(ps, flakyPos{Name: "partial under a layout, both call the helper", Tmpl: `a<%= partial("p", {layout: "l"}) %>b`, Partials: map[string]string{"p": `<%= flaky(K) %>`, "l": `{<%= yield %><%= flaky(K) %>}`}, N: 2, Ok: "a{..}b"})
+	ps = append(ps, flakyPos{Name: "nested partial in a loop", Tmpl: `a<%= for (v) in two { %><%= partial("q") %><% } %>b`, Partials: map[string]string{"p": `<%= flaky(K) %>`, "q": `<%= partial("p") %>`}, N: 2, Ok: "a..b"})
+	ps = append(ps, flakyPos{Name: "nested Render twice", Tmpl: `a<%= rend(tsrc) %><%= rend(tsrc) %>b`, Tsrc: `<%= flaky(K) %>`, N: 2, Ok: "a..b"})
+	return ps
+}
+
+func mkFlaky(p flakyPos, k int) RawCase {
+	sub := func(s string) string { return strings.ReplaceAll(s, "flaky(K)", fmt.Sprintf("flaky(%d)", k)) }
+	c := RawCase{Pos: p.Name, Fault: fmt.Sprintf("helper failing on invocation %d of %d", k, p.N), Tmpl: sub(p.Tmpl), Tsrc: sub(p.Tsrc), Helper: true,
+		Baseline: "<%= flaky(1) %>", MustFail: k <= p.N, Out: p.Ok}
+	for n, t := range p.Partials {
+		if c.Partials == nil {
+			c.Partials = map[string]string{}
+		}
+		c.Partials[n] = sub(t)
+	}
+	return c
 }
